@@ -190,6 +190,8 @@ class Atoms:
                 v = (a + 0.25, a + 0.75)
             elif k == 'z':
                 v = 0 if a % 2 else 0.0
+            elif k == 'b':
+                v = bool(a % 2 == 0)
             else:
                 raise AssertionError(k)
             self.val[a] = v
